@@ -19,6 +19,15 @@ def main():
     common.silence_logging()
     path = sys.argv[1]
     rec = json.load(open(path))
+    if rec.get("module") == "xh.conditions" and rec.get("call"):
+        mod = importlib.import_module("xh.conditions")
+        try:
+            ok = eval(rec["call"], dict(vars(mod)))
+        except Exception as ex:  # noqa
+            ok = "raised %s: %s" % (type(ex).__name__, ex)
+        print("crosshair counterexample:", rec["call"], "->", ok)
+        print("REPRODUCED" if ok is not True else "NOT REPRODUCED")
+        return 1 if ok is not True else 0
     mod = importlib.import_module(rec["module"])
     made = getattr(mod, rec["factory"])(**_tuplify(rec["params"]))
     h, opts = made if isinstance(made, tuple) else (made, {})
